@@ -115,13 +115,16 @@ def genChain (tier : Tier) (o : Out) : IO Unit := do
         for bare in [false, true] do
           for decoys in [false, true] do
             let links : List (String × Def) := (linkMods.zipIdx).map fun (m, i) =>
-              let a := "cs::a" ++ toString (i + 1)
+              -- on every other chain all links (and the use) carry the SAME directive with different arguments: all are carried along
+              let sameDir := (fin + n) % 2 == 0
+              let a := if sameDir then "cs::type" else "cs::a" ++ toString (i + 1)
+              let namedA := fun (d id : String) => (TRef.mk [⟨d, [toString (i + 1)]⟩] (.named id) false)
               let ty : TRef :=
                 if i + 1 < n then namedA a (spellFrom bare m (linkMods.getD (i + 1) "A") ("T" ++ toString (i + 2)))
                 else match fin with
-                  | 0 => .mk [⟨a, []⟩] (.prim .uint8) false
+                  | 0 => .mk [⟨a, [toString (i + 1)]⟩] (.prim .uint8) false
                   | 1 => namedA a "S"
-                  | 2 => .mk [⟨a, []⟩] (.seq (primRef .bool)) false
+                  | 2 => .mk [⟨a, [toString (i + 1)]⟩] (.seq (primRef .bool)) false
                   | 3 => namedA a "I"
                   | 4 => namedA a "E"
                   | 5 => namedA a "C0"
@@ -140,7 +143,7 @@ def genChain (tier : Tier) (o : Out) : IO Unit := do
               for group in [0, 1, 2] do
                 let first := linkMods.getD 0 "A"
                 let sp := if um == "A::B::C" then spellFrom bare "A::B" first "T1" else spellFrom bare um first "T1"
-                let user := mkFile um (userDefs group (namedA "cs::a0" sp))
+                let user := mkFile um (userDefs group (TRef.mk [⟨(if (fin + n) % 2 == 0 then "cs::type" else "cs::a0"), ["0"]⟩] (.named sp) false))
                 let files := [fileA, fileB, user]
                 idx := idx + 1
                 if tier == .thorough then
@@ -199,6 +202,12 @@ def genDup (o : Out) : IO Unit := do
      enumDef "E" none [enr "a", enr "b", enr "a"],
      ifaceDef "I" [] [opDef "op" [prm "p" (primRef .bool), prm "p" (primRef .bool)] .none, opDef "op" [] .none],
      enumDef "F" none [{ doc := [], attrs := [], name := "a", fields := some [fld "x" (primRef .bool), fld "x" (primRef .bool)], value := none }]]
+  -- a definition whose fully scoped name is also the name of a (nested) module, in both file orders
+  for P in [[mkFile "A" [structDef "B" [fld "x" (primRef .int32)]], mkFile "A::B" [structDef "Inner" []]],
+            [mkFile "A::B" [structDef "Inner" []], mkFile "A" [structDef "B" [fld "x" (primRef .int32)]]],
+            [mkFile "A" [structDef "B" []], mkFile "A::B" [structDef "Inner" []], mkFile "A::C" [structDef "User" [fld "b" (named "B")]]],
+            [mkFile "A::B" [structDef "Inner" []], mkFile "A" [structDef "B" []], mkFile "A::C" [structDef "User" [fld "b" (named "B")]]]] do
+    emitF P
   for d in members do
     emitF [mkFile "A" [d]]
   emitF [mkFile "A" members, mkFile "A" members]
